@@ -643,22 +643,49 @@ func (s *scope) interpretOps(obj pyObject, ops []OpExpression) pyObject {
 		return s.interpretOp(obj, ops[0])
 	}
 	// Multiple operators, need to take precedence into account
-	if ops[0].Op.Precedence() >= ops[1].Op.Precedence() {
-		// The next operator is not higher than us so we can evaluate one more expression
-		return s.interpretOps(s.interpretOp(obj, ops[0]), ops[1:])
+	obj, _ = s.interpretOpsAbove(obj, ops, Or.Precedence(), true)
+	return obj
+}
+
+// interpretOpsAbove applies to obj the leading operators of ops (which are in source order) for as
+// long as they bind at least as tightly as minPrecedence. It returns the result and the operators
+// it did not consume. A unary operator at the front of ops is the prefix of obj itself.
+// If evaluate is false nothing is evaluated and the operators are only consumed; this is how the
+// right-hand side of a short-circuited 'and' / 'or' is skipped.
+func (s *scope) interpretOpsAbove(obj pyObject, ops []OpExpression, minPrecedence int, evaluate bool) (pyObject, []OpExpression) {
+	if len(ops) > 0 && ops[0].Expr == nil {
+		// Unary operator. It applies to obj together with everything that binds more tightly than
+		// it does: -a * b is (-a) * b, but not a == b is not (a == b).
+		unary := ops[0]
+		obj, ops = s.interpretOpsAbove(obj, ops[1:], unary.Op.Precedence(), evaluate)
+		if evaluate {
+			obj = s.interpretOp(obj, unary)
+		}
 	}
-	// Next operator does have higher precedence so we do that first, unless we short-circuit
-	if ops[0].Op.Lazy() && obj.IsTruthy() != (ops[0].Op == And) {
-		return obj
-	} else if ops[0].Expr == nil {
-		// Unary expression
-		return s.interpretOp(s.interpretOps(obj, ops[1:]), ops[0])
+	for len(ops) > 0 && ops[0].Op.Precedence() >= minPrecedence {
+		op := ops[0]
+		if len(ops) == 1 || (ops[1].Expr != nil && ops[1].Op.Precedence() <= op.Op.Precedence()) {
+			// What follows doesn't bind more tightly, so the right operand is simply op.Expr
+			if evaluate {
+				obj = s.interpretOp(obj, op)
+			}
+			ops = ops[1:]
+			continue
+		}
+		// The right operand is op.Expr combined with the following operators that bind more tightly than op.
+		if !evaluate || (op.Op.Lazy() && obj.IsTruthy() != (op.Op == And)) {
+			// Short-circuited, so skip over that operand without evaluating it.
+			_, ops = s.interpretOpsAbove(nil, ops[1:], op.Op.Precedence()+1, false)
+			continue
+		}
+		var operand pyObject
+		operand, ops = s.interpretOpsAbove(s.interpretExpression(op.Expr), ops[1:], op.Op.Precedence()+1, true)
+		obj = s.interpretOp(obj, OpExpression{
+			Op:   op.Op,
+			Expr: &Expression{optimised: &optimisedExpression{Constant: operand}},
+		})
 	}
-	nobj := s.interpretOps(s.interpretExpression(ops[0].Expr), ops[1:])
-	return s.interpretOp(obj, OpExpression{
-		Op:   ops[0].Op,
-		Expr: &Expression{optimised: &optimisedExpression{Constant: nobj}},
-	})
+	return obj, ops
 }
 
 func (s *scope) interpretOp(obj pyObject, op OpExpression) pyObject {
